@@ -516,18 +516,54 @@ def _collect(shard, seed, n):
     return col
 
 
+EXH_ALPHABET = ["dwr", "dwr-pair", "dwr-wrong-host", "dwa", "dpr", "dpr-busy", "dpr-wrong-host", "dpa", "app-req", "app-ans",
+                "misaddressed-req", "local-stop", "fin", "rst", "cer", "cer-wrong-host", "cea", "cea-wrong-realm", "restart", "ack", "nack"]
+
+
+def _exhaustive(args):
+    """every event sequence of the given length over EXH_ALPHABET after the canonical opening, for one role and first event"""
+    import itertools
+    role, first, depth = args
+    common.bootstrap()
+    col = Collector(PID, RULE)
+    opening = [_ev("ack"), _ev("cea")] if role == "client" else [_ev("cer", hbh=0x0A0B0C0D, e2e=0x01020304)]
+    n = nt = 0
+    for tail in itertools.product(EXH_ALPHABET, repeat=depth - 1):
+        evs = opening + [_ev(e, hbh=0x100 + i, e2e=0x200 + i, hbh2=0x300 + i, e2e2=0x400 + i) for i, e in enumerate((first,) + tail)]
+        case = {"role": role, "napps": 1, "events": evs, "backlog": 0}
+        run, info = execute(case)
+        n += 1
+        nt += len(info["visited"]) >= 3 or any(e in UNEXPECTED for e in info["applied"])
+        for v in run.vs:
+            col.violation(case, v)
+    col.count_enum(n, nt, {"exhaustive-sequences": n})
+    return col
+
+
+def _ev(e, hbh=1, e2e=1, hbh2=2, e2e2=2):
+    return {"e": e, "hbh": hbh, "e2e": e2e, "hbh2": hbh2, "e2e2": e2e2}
+
+
 def main(ctx):
     col = common.run_shards(_collect, 8 if ctx.quick else 16, ctx.seed, n=120 if ctx.quick else 2500)
+    depth = 2 if ctx.quick else 3
+    jobs = [(role, first, depth) for role in ("client", "server") for first in EXH_ALPHABET]
+    for part in common.pmap(_exhaustive, jobs):
+        col.merge(part)
+    col.exhaustive = True
+    col.extra["exhaustive_scope"] = (f"every sequence of {depth} events over a {len(EXH_ALPHABET)}-event alphabet after the canonical opening "
+                                     f"(client: ack, CEA; server: CER), both roles: {2 * len(EXH_ALPHABET) ** depth} sequences; events that are "
+                                     "not applicable in the reached state are skipped by the model")
     for path, rec in common.load_replays(PID):
         col.record(rec["case"], run_case(rec["case"]), nontrivial=True, classes=["replay"])
-    ctx.required_classes = ["visits>=3-states", "non-conformant-event", "role=client", "role=server", "state=Closing", "state=Wait-I-CEA",
+    ctx.required_classes = ["exhaustive-sequences", "visits>=3-states", "non-conformant-event", "role=client", "role=server", "state=Closing", "state=Wait-I-CEA",
                             "ev=restart", "ev=idle", "ev=local-stop", "ev=dpr", "ev=fin", "ev=nack", "ev=misaddressed-req", "ev=cer-wrong-host",
                             "ev=cea-wrong-realm"]
     ctx.assumptions = ["fair schedule with virtual-time settling after each event (0.6-8 virtual s); CER while the initiator waits (election "
                        "states, unimplemented per the statement) is excluded by construction",
                        "rows on which the statement is silent (invalid DWR/DWA/DPR, CEA/DPA/CER in Open, invalid CEA in Wait-I-CEA) are "
                        "nondeterministic in the model: only the global invariants are asserted there",
-                       "sequences are sampled (random, <= 16 events), not exhaustively enumerated"]
+                       "long sequences are sampled (guided random, <= 16 events); exhaustive only to depth 2 (quick) / 3 (thorough) after the opening"]
 
     def shrinker(sig, case):
         evs = common.ddmin_list(case["events"], lambda sub: any(v.sig == sig for v in run_case(dict(case, events=sub))), budget_s=40)
